@@ -14,6 +14,8 @@ CFG = """CONSTANTS
   MaxDup = %(dup)d
   MaxResend = %(rs)d
   ChanCap = %(cap)d
+  MaxInject = %(inj)d
+  InjSeqs = {%(injseqs)s}
 SPECIFICATION Spec
 INVARIANTS %(invs)s
 CHECK_DEADLOCK FALSE
@@ -22,9 +24,10 @@ CHECK_DEADLOCK FALSE
 ALL_INVS = "TypeOK WindowBound Outstanding AddOnlyWithRoom PrefixDelivery Unwrapped"
 
 
-def cfg(n, sc, ss=0, pc=0, ps=0, drop=1, dup=0, rs=1, cap=4, invs=ALL_INVS):
+def cfg(n, sc, ss=0, pc=0, ps=0, drop=1, dup=0, rs=1, cap=4, invs=ALL_INVS,
+        inj=0, injseqs=""):
     return dict(n=n, sc=sc, ss=ss, pc=pc, ps=ps, drop=drop, dup=dup, rs=rs,
-                cap=cap, invs=invs)
+                cap=cap, invs=invs, inj=inj, injseqs=injseqs)
 
 
 # measured on the 16-core sandbox (distinct states / wall):
@@ -63,3 +66,19 @@ def run_mc(ctx, configs, invs=None, timeout=1500):
         if not r["ok"]:
             bad.append((name, r["violated"], r["out"]))
     return tot_d, tot_g, per, bad
+
+# C07: the relay forges ACK/NACK packets with arbitrary sequence bytes; only
+# the window bookkeeping invariant is claimed under such an adversary.
+INJECT_QUICK = {
+    "n1_2msg_inject1": cfg(1, 2, drop=0, dup=0, rs=1, inj=1, injseqs="0,1,2,255",
+                           invs="WindowBound"),            # 453 k / 15 s
+    "n2_1msg_inject1": cfg(2, 1, drop=0, dup=0, rs=1, inj=1,
+                           injseqs="0,1,2,3,255", invs="WindowBound"),
+}
+INJECT_THOROUGH = dict(INJECT_QUICK)
+INJECT_THOROUGH.update({
+    "n1_inject2": cfg(1, 2, drop=0, dup=0, rs=1, inj=2, injseqs="0,1,2,3,255",
+                      invs="WindowBound"),                 # 12.9 M / 135 s
+    "n2_2msg_inject1": cfg(2, 2, drop=0, dup=0, rs=1, inj=1,
+                           injseqs="0,1,2,3,255", invs="WindowBound"),  # 8.8 M / 90 s
+})
